@@ -284,6 +284,36 @@ def singleton_probe(ctx, when):
     return True
 
 
+def immutability_probe(ctx):
+    """HalmosBitVec is documented as an immutable wrapper and its objects are shared (module-level constants, stack
+    items copied by reference): wrapping an existing object again must never change that object"""
+    from z3 import BitVec
+
+    from halmos.bitvec import HalmosBitVec as BV
+
+    bad = []
+    for label, mk in (("concrete-160", lambda: BV(5, size=160)), ("concrete-8", lambda: BV(0x7F, size=8)),
+                      ("symbolic-160", lambda: BV(BitVec("probe_a", 160), size=160)), ("concrete-256", lambda: BV(5, size=256))):
+        x = mk()
+        before = (x.size, x.is_concrete, str(x.unwrap()))
+        for again in (lambda: BV(x), lambda: BV(x, size=x.size), lambda: BV(x, size=256)):
+            try:
+                again()
+            except Exception as e:  # noqa: BLE001
+                bad.append((label, f"raised {type(e).__name__}"))
+        after = (x.size, x.is_concrete, str(x.unwrap()))
+        ctx.case(("immutability-probe", label))
+        ctx.count("probe:bitvec-immutability")
+        if after != before:
+            bad.append((label, f"{before} -> {after}"))
+    if bad:
+        ctx.violation("HalmosBitVec|constructor-mutates-its-argument",
+                      f"HalmosBitVec(<existing HalmosBitVec>) re-initialises the existing (shared) object: {bad[:3]}",
+                      {"kind": "immutability-probe", "observed": bad})
+        return False
+    return True
+
+
 def gen_cases(ctx, pool, exp_safe):
     rng = ctx.rng
     per_op = ctx.scale(420, 6000)
@@ -412,6 +442,7 @@ def correspond(ctx):
     ctx.extra["value_pool_size"] = len(pool)
     exp_safe = prompt_probe(ctx)
     singleton_probe(ctx, "start")
+    immutability_probe(ctx)
 
     sevm, args = sevmdrv.mk_sevm()
     cases = []
@@ -546,6 +577,8 @@ def replay(ctx, data):
         return not prompt_probe(ctx)
     if r.get("kind") == "singleton-probe":
         return not singleton_probe(ctx, "start")
+    if r.get("kind") == "immutability-probe":
+        return not immutability_probe(ctx)
     sevm, args = sevmdrv.mk_sevm(**({"smt_exp_by_const": int(r["op"].split("@")[1])} if "@" in r["op"] else {}))
     ops = [Operand(rep, int(v, 16), j, ctx.rng) for j, (rep, v) in enumerate(r["operands"])]
     envs = [{k: int(v, 16) for k, v in e.items()} for e in r["envs"]]
